@@ -144,27 +144,50 @@ func (cg *caseGen) constVal(depth int) pvcase.Val {
 	}
 }
 
-func (cg *caseGen) vexpr(nargs int, depth int) *pvcase.VExpr {
+// vctx restricts value expressions so that values cannot grow
+// exponentially: every argument is used at most once per expression (a
+// `tup(arg 0, arg 0)` in a recursive rule doubles the value at every level),
+// and values written to a store never contain arguments or store reads
+// (`gset g tup(gget g, gget g)` doubles at every invocation).
+type vctx struct {
+	nargs    int
+	used     map[int]bool
+	forStore bool
+}
+
+func (cg *caseGen) vexpr(vc *vctx, depth int) *pvcase.VExpr {
+	nargs := vc.nargs
+	var free []int
+	for i := 0; i < nargs; i++ {
+		if !vc.used[i] {
+			free = append(free, i)
+		}
+	}
 	ws := []wk{{"text", 22}, {"pos", 7}, {"const", 9}, {"calli", 4}}
-	if nargs > 0 {
-		ws = append(ws, wk{"arg", 22})
-	} else {
-		ws = append(ws, wk{"arg", 1}) // out of range: nil
+	if !vc.forStore {
+		if len(free) > 0 {
+			ws = append(ws, wk{"arg", 22})
+		} else if nargs == 0 {
+			ws = append(ws, wk{"arg", 1}) // out of range: nil
+		}
 	}
 	if depth < 2 {
 		ws = append(ws, wk{"tup", 20})
 	}
-	if cg.f.stateEff {
-		ws = append(ws, wk{"sget", 10})
-	}
-	if cg.f.globEff {
-		ws = append(ws, wk{"gget", 6})
+	if !vc.forStore || depth == 0 {
+		if cg.f.stateEff {
+			ws = append(ws, wk{"sget", 10})
+		}
+		if cg.f.globEff {
+			ws = append(ws, wk{"gget", 6})
+		}
 	}
 	v := &pvcase.VExpr{Op: cg.choose(ws)}
 	switch v.Op {
 	case "arg":
-		if nargs > 0 && !cg.chance(0.03) {
-			v.I = cg.r.IntN(nargs)
+		if len(free) > 0 && !cg.chance(0.03) {
+			v.I = free[cg.r.IntN(len(free))]
+			vc.used[v.I] = true
 		} else {
 			v.I = nargs + cg.r.IntN(2)
 		}
@@ -179,17 +202,18 @@ func (cg *caseGen) vexpr(nargs int, depth int) *pvcase.VExpr {
 		if cg.chance(0.05) {
 			n = 0
 		}
-		if nargs > 0 && cg.chance(0.5) {
+		if !vc.forStore && len(free) == nargs && nargs > 0 && cg.chance(0.5) {
 			// the classical "tuple of all labels"
 			for i := 0; i < nargs; i++ {
 				v.Kids = append(v.Kids, &pvcase.VExpr{Op: "arg", I: i})
+				vc.used[i] = true
 			}
 			if cg.chance(0.3) {
 				v.Kids = append(v.Kids, &pvcase.VExpr{Op: "text"})
 			}
 		} else {
 			for i := 0; i < n; i++ {
-				v.Kids = append(v.Kids, cg.vexpr(nargs, depth+1))
+				v.Kids = append(v.Kids, cg.vexpr(vc, depth+1))
 			}
 		}
 	}
@@ -260,7 +284,7 @@ func (cg *caseGen) effect(global bool, nargs int) pvcase.Effect {
 	case "set":
 		e.Op = pre + "set"
 		e.Key = pickStr(cg.r, keys)
-		e.V = cg.vexpr(nargs, 1)
+		e.V = cg.vexpr(&vctx{nargs: nargs, used: map[int]bool{}, forStore: true}, 0)
 	default:
 		e.Op = pre + "mut"
 		e.Key = keys[1]
@@ -325,7 +349,7 @@ func (cg *caseGen) fillBlock(b *pvcase.Block) {
 	}
 	switch b.Kind {
 	case 'a':
-		b.RetV = cg.vexpr(nargs, 0)
+		b.RetV = cg.vexpr(&vctx{nargs: nargs, used: map[int]bool{}}, 0)
 	case 'p':
 		b.RetB = cg.bexpr(nargs, 0)
 	}
